@@ -1,5 +1,5 @@
 import sys, os
-sys.path.insert(0,"/root/vtlstub"); import vtlstub; vtlstub.install(os.environ.get("VTL_SRC","/repo/src"))
+sys.path.insert(0,"/verif/triage"); import vtlstub; vtlstub.install(os.environ.get("VTL_SRC","/repo/src"))
 import duckdb
 from vtlengine.duckdb_transpiler.sql import initialize_time_types
 c=duckdb.connect(); initialize_time_types(c)
